@@ -296,6 +296,13 @@ func nsBig() (*xdoc.Doc, map[string]string) {
 		for i := 1; i <= nsBigFan; i += 55 {
 			r.AddElem(fmt.Sprintf("q%d", i), "e", uri(i)).AddAttr("", "twin", "", fmt.Sprint(i))
 		}
+		// names of 300 bytes (prefix and local part), sharing all but their last character
+		long := strings.Repeat("n", 299)
+		for _, last := range []string{"a", "b"} {
+			e := r.AddElem(long+last, long+last, uri(1))
+			e.AddAttr(long+last, long+last, uri(1), last)
+			e.AddAttr("", long+last, "", "u"+last)
+		}
 		nsBigDoc = d.Finish()
 		nsBigMap = map[string]string{}
 		for i := 1; i <= nsBigFan; i++ {
@@ -317,6 +324,9 @@ func c14BigList() []string {
 			f("local-name(/r/*[%d]/@*[1])", n), f("name(/r/*[%d]/@x%d:a)", n, n), f("count(//@x%d:a)", n), f("/r/x%d:e | /r/x%d:e", n, n+1), f("/r/*[self::x%d:e]/@id", n), f("count(/r/*[@p%d:a])", n),
 			f("/r/x%d:e[@twin]", n), f("string(/r/x%d:e[last()]/@twin)", n), f("count(/r/x%d:e/following-sibling::x%d:e)", n, n), f("boolean(/r/x%d:e/@x%d:a)", n, n+1))
 	}
+	long := strings.Repeat("n", 299)
+	l = append(l, "/r/x1:"+long+"a", "/r/x1:"+long+"b/@x1:"+long+"b", "count(/r/x1:"+long+"a | /r/x1:"+long+"b)", "name(/r/*[last()])", "local-name((/r/*[last() - 1]/@*)[2])", "string(/r/x1:"+long+"a/@"+long+"a)",
+		"count(/r/*[starts-with(local-name(), 'nnn')])", "/r/*[local-name() = '"+long+"b']/@*", "count(//@"+long+"a)", "count(//@x1:"+long+"b)")
 	l = append(l, "count(/r/*)", "count(/r/x1:e | /r/x56:e | /r/x1046:e)", "count(//@id)", "name(/r/*[last()])", "namespace-uri(/r/*[last()])", "count(/r/*[namespace-uri() = 'urn:n:56'])", "count(/r/*[local-name() = 'e'])")
 	return l
 }
